@@ -76,7 +76,7 @@ def case_strategy(draw, tier):
             c["marginals"] = ms
             if loader == "marginal_sampling":
                 c["n_samples"] = 20000
-                if T >= 2 and draw(st.integers(0, 5)) == 5 and all(m["kind"] == "table" for m in ms):
+                if T >= 2 and draw(st.integers(0, 2)) == 2 and all(m["kind"] == "table" for m in ms):
                     # one topology with a wide degree range (beyond 255), the others narrow and starting higher
                     c["bounds"][0] = [0, draw(st.integers(260, 320))]
                     for b in c["bounds"][1:]:
@@ -86,6 +86,24 @@ def case_strategy(draw, tier):
 
 def strategy(tier):
     return case_strategy(tier)
+
+
+def enumerated(tier, seed):
+    """fixed shapes that the generator only produces now and then: wide sampled bounds (beyond 255), the same callable
+    for all topologies, three unequal marginals in direct mode, equal motif sizes with different marginals."""
+    t = lambda s_, tiny=(): {"kind": "table", "seed": s_, "tiny": list(tiny)}
+    out = []
+    for path in ("class", "dispatch_str"):
+        out.append({"loader": "marginal_sampling", "path": path, "sizes": [2, 3], "seed": seed + 1, "n_samples": 20000,
+                    "bounds": [[0, 300], [2, 4]], "marginals": [t(11), t(12)]})
+        out.append({"loader": "marginal_sampling", "path": path, "sizes": [2, 2], "seed": seed + 2, "n_samples": 20000,
+                    "bounds": [[1, 5], [1, 5]], "marginals": [t(13), t(13)], "share_callable": True})
+        out.append({"loader": "marginal_sampling", "path": path, "sizes": [2, 3], "seed": seed + 3, "n_samples": 20000,
+                    "bounds": [[0, 6], [0, 4]], "marginals": [t(14, (0,)), t(15)]})
+        out.append({"loader": "marginal", "path": path, "sizes": [2, 4, 4], "seed": seed + 4,
+                    "bounds": [[0, 3], [0, 2], [0, 4]], "marginals": [{"kind": "poisson", "m": 2.0}, {"kind": "poisson", "m": 1.0},
+                                                                      {"kind": "poisson", "m": 0.3}]})
+    return out
 
 
 def positive(seed, *idx):
